@@ -73,9 +73,12 @@ def compare(impl_thunk, ref_thunk, *, check_dtype=True, fill=None, must_be_spars
         if must_be_sparse and np.ndim(ref) > 0 and not scalar_rule:
             return f"result is {type(got).__name__}, not a sparse array"
         d = np.asarray(got)
-    ref = np.asarray(ref)
     if scalar_rule:
-        ref_is_scalar = not isinstance(ref_thunk_result_holder.get("raw"), np.ndarray) if False else None
+        ref_scalar = not isinstance(ref, np.ndarray)
+        got_scalar = not isinstance(got, sparse.SparseArray | np.ndarray)
+        if ref_scalar != got_scalar:
+            return f"numpy returns {'a scalar' if ref_scalar else 'an array'} but the call returned {type(got).__name__}"
+    ref = np.asarray(ref)
     if d.shape != ref.shape:
         return f"shape {d.shape}, numpy {ref.shape}"
     if check_dtype and d.dtype != ref.dtype:
@@ -84,5 +87,3 @@ def compare(impl_thunk, ref_thunk, *, check_dtype=True, fill=None, must_be_spars
         return f"values differ: got {d.tolist()!r:.200} numpy {ref.tolist()!r:.200}"
     return None
 
-
-ref_thunk_result_holder = {}
